@@ -464,7 +464,7 @@ COMMUTATIVE: set[str] = set()  # names of binary function symbols assumed commut
 TERM_AXIOMS: dict = {}  # function symbol name -> callable(app) -> list of (assumed) ground facts about that term
 
 
-def commutativity_instances(formulas: list, rounds: int = 4, limit: int = 3000) -> list:
+def commutativity_instances(formulas: list, rounds: int = 14, limit: int = 3000) -> list:
     """ground instances of commutativity and of the registered TERM_AXIOMS for the terms of the query
     (iterated, because an instantiated axiom mentions new terms)"""
     out, seen = [], set()
